@@ -709,9 +709,17 @@ var InitAllow = []string{"metacontroller/"}
 // (without running the initialisers of their imports unless also listed).
 var InitAllowExact = map[string]bool{}
 
+// InitDeny lists path prefixes excluded from InitAllow.
+var InitDeny = []string{}
+
 func InitOK(path string) bool {
 	if InitAllowExact[path] {
 		return true
+	}
+	for _, a := range InitDeny {
+		if strings.HasPrefix(path, a) {
+			return false
+		}
 	}
 	for _, a := range InitAllow {
 		if strings.HasPrefix(path, a) {
